@@ -30,7 +30,7 @@ EXACT = ["as:0", "as:2", "as3", "typeid", "exec:1", "exec:2", "exec_witness:2"]
 # opaque programs (multi-VM, exec chains, failures); second field: heavy (thorough tier / fewer schedules)
 OPAQUE_QUICK = ["cases:1", "cases:3", "cases:5", "cases:6", "cases:7", "cases:9", "cases:2", "cases:4", "cases:12",
                 "cases:13", "strcat", "spawn_exec", "current_cycles", "io:128:1", "fail:0", "fail:2", "mix:1", "mix:2",
-                "mix:5", "exec:1", "saturate"]
+                "mix:5", "exec:1", "saturate", "create17"]
 OPAQUE_THOROUGH = ["cases:%d" % i for i in range(1, 20)] + [
     "strcat", "strcat_wrap", "spawn_exec", "current_cycles", "spawn_cycles", "spawn_times", "io:128:1", "io:1152:0",
     "fail:0", "fail:1", "fail:2", "mix:1", "mix:2", "mix:5", "mix:9", "exec:1", "exec:2", "exec_witness:1",
@@ -307,16 +307,39 @@ def pending_io(full):
     return any((r ^ 1) in writes for r in reads) or any((f ^ 1) not in open_fds for f in reads | writes)
 
 
+LIGHT_QUICK = {"create17"}
+MAX_INST = 4
+
+
+def io_pairing_iterations(iters):
+    """1-based numbers of the iterations of the reference run in which process_io() completed a read / write of a VM
+    other than the one that ran (a reader / writer pair was matched) while more than MAX_INST VMs were alive"""
+    ks = []
+    prev = {}
+    for n, it in enumerate(iters):
+        if "vm" not in it:
+            break
+        cur = {v: st for v, st in it["states"]}
+        if len(cur) > MAX_INST:
+            for v, st in prev.items():
+                if v != it["vm"] and (st.startswith("read") or st.startswith("write")) and cur.get(v) != st:
+                    ks.append(n + 1)
+                    break
+        prev = cur
+    return ks
+
+
 def opaque_binding(c, progs, tier, rng, shapes, dag_models=()):
     """progs: names of the catalogue; dag_models: (dag, model reference run) pairs of VmScheduler.tla"""
     specs = [{"prog": p} for p in progs] + [{"prog": "dag", "dag": dag_job(d)} for d, _ in dag_models]
     names = list(progs) + ["dag#%d" % n for n in range(len(dag_models))]
     models = {("dag#%d" % n): m for n, (_, m) in enumerate(dag_models)}
-    refs = harness([dict(sp, mode="ref") for sp in specs], "refs")
+    refs = harness([dict(sp, mode="ref", iters=True) for sp in specs], "refs")
     codes = Codes()
     jobs, meta = [], []
     n_shapes = 30 if tier == "quick" else 120
     snap = {"compared": 0, "equal": 0}
+    io_window_iters = {}
     for p, sp, ref in zip(names, specs, refs):
         if p.startswith("dag#"):
             n_shapes_p = n_shapes // 3
@@ -336,6 +359,7 @@ def opaque_binding(c, progs, tier, rng, shapes, dag_models=()):
                 if g["kind"] != "ok":
                     break
         heavy = need > 5_000_000
+        light = tier == "quick" and p in LIGHT_QUICK       # only a few shapes and the targeted cuts
         def add(sched, fin, why, cap=None, sp=sp):
             j = dict(sp, mode="chunks", sched=sched, fin=fin, detail=True)
             if cap:
@@ -343,18 +367,38 @@ def opaque_binding(c, progs, tier, rng, shapes, dag_models=()):
             jobs.append(j)
             meta.append({"prog": p, "why": why, "need": need})
         # (a) TLC partition shapes at real magnitude
-        for sh in rng.sample(shapes, (n_shapes_p // 4) if heavy else n_shapes_p):
+        for sh in rng.sample(shapes, 4 if light else (n_shapes_p // 4) if heavy else n_shapes_p):
             sched, fin = scale_shape(sh, need, rng)
             add(sched, fin, "shape")
         # (b) cuts at scheduler-iteration boundaries
         bounds = ref.get("bounds") or []
         ks = list(range(1, len(bounds) + 1))
-        if len(ks) > (16 if tier == "quick" else 60):
-            ks = sorted(rng.sample(ks, 16 if tier == "quick" else 60))
+        nk = 4 if light else 16 if tier == "quick" else 60
+        if len(ks) > nk:
+            # the last two iterations always: a limit found exceeded in the root VM's final iteration suspends a
+            # scheduler that has already terminated (its verdict must survive the snapshot)
+            ks = sorted(set(rng.sample(ks, nk)) | set(ks[-2:]))
         for k in ks:
             width = bounds[k - 1] - (bounds[k - 2] if k >= 2 else 0)
             for off in [-1, 0, 1, -(width // 2)]:
                 add([{"iter": k, "off": off}], {"kind": "max"}, "iter")
+        # (b2) cuts INSIDE the unchecked lump of a read / write / wait syscall (the limit is then found exceeded after the
+        # message was processed, i.e. between the two halves of the iteration) for iterations whose process_io() pairs a
+        # reader and a writer while more VMs are alive than can be instantiated (VM swaps are charged there)
+        ioks = io_pairing_iterations(ref.get("iters") or [])
+        stats_io = len(ioks)
+        if len(ioks) > (10 if tier == "quick" else 60):
+            ioks = sorted(rng.sample(ioks, 10 if tier == "quick" else 60))
+        for k in ioks:
+            for off in (-799, -400, -100, 1):
+                add([{"iter": k, "off": off}], {"kind": "max"}, "io-window")
+            add([{"iter": k, "off": -rng.randrange(2, 799)}], {"kind": "complete", "max": need}, "io-window")
+        io_window_iters[p] = (stats_io, len(ioks))
+        if light:
+            for rel in (-1, 0):
+                jobs.append(dict(sp, mode="verify", max=max(0, need + rel)))
+                meta.append({"prog": p, "why": "verify", "need": need})
+            continue
         for _ in range(0 if not bounds else (6 if tier == "quick" else 30)):
             k1, k2 = sorted(rng.sample(range(1, len(bounds) + 1), 2)) if len(bounds) >= 2 else (1, 1)
             add([{"iter": k1, "off": rng.choice([-1, 0, 1])}, {"iter": k2, "off": rng.choice([-1, 0, 1])}], {"kind": "max"}, "iter2")
@@ -421,6 +465,14 @@ def opaque_binding(c, progs, tier, rng, shapes, dag_models=()):
     if stats["suspended_runs"] < 100 or stats["budget_runs"] < 20 or stats["signal_runs"] < 10:
         raise V.ToolError("vacuous opaque run: %s" % stats)
     validate_trace(c, trace_path, runs_in_trace, "opaque")
+    # diagnostic (Scheduler API, not a TransactionScriptsVerifier entry point): does a snapshot of a scheduler whose root
+    # VM has already exited keep the exit code?  No run of this check drove chunk_run into that situation.
+    probe = harness([{"prog": q, "mode": "termsnap"} for q in ("fail:0", "strcat_wrap")], "termsnap")
+    stats["terminated_scheduler_snapshot_exit_codes"] = [[r["prog"], r["termsnap"].get("before", {}).get("exit"),
+                                                          r["termsnap"].get("after", {}).get("exit")] for r in probe]
+    stats["io_window_iterations"] = {p: v for p, v in io_window_iters.items() if v[0]}
+    if not stats["io_window_iterations"]:
+        raise V.ToolError("vacuous: no program with more than 4 live VMs pairing pipe IO was cut inside a syscall lump")
     stats["dag_snapshots_compared_with_model"] = snap["compared"]
     stats["dag_snapshots_equal_to_model"] = snap["equal"]
     c.set("opaque", stats)
@@ -739,7 +791,7 @@ def run_vmsched(c, tier, rng, shapes):
     # self-test: wrong suspend/resume mechanisms must be rejected
     muts = {}
     probe = rng.sample(small, 60) + rng.sample(big, 4)
-    for v in ["resume_charges", "inst_not_restored", "skip_io_at_limit_suspend", "lose_iteration_cycles"]:
+    for v in ["resume_charges", "inst_not_restored", "skip_io_at_limit_suspend", "lose_iteration_cycles", "io_before_suspend"]:
         res, _ = tlc_on(probe, "MC_VmScheduler_mut_%s.cfg" % v, "mut_" + v, timeout=600)
         if res["violated"] != "SuspendInvariance":
             raise V.ToolError("oracle self-test failed: variant %s is not rejected by SuspendInvariance (%s)" % (v, res["violated"]))
@@ -777,7 +829,13 @@ def run_vmsched(c, tier, rng, shapes):
     c.sample({"dag_reference": {"dag": uniq[len(uniq) // 2], "model_trace": bykey[json.dumps(uniq[len(uniq) // 2], sort_keys=True)]["out"]}})
     V.log("[C05] VmScheduler: %s" % stat)
     # the DAG witnesses also go through the chunk / budget / signal machinery
-    pick = rng.sample(uniq, 10 if tier == "quick" else 40)
+    def swaps_in_io(m):
+        return any(sum(1 for x in e["states"] if x["k"] not in ("none", "term")) > MAX_INST
+                   and any(x["k"] in ("rd", "wr") for x in e["states"]) for e in m["log"])
+    hot = [d for d in uniq if swaps_in_io(bykey[json.dumps(d, sort_keys=True)])]
+    nhot, nall = (5, 10) if tier == "quick" else (20, 40)
+    pick = rng.sample(hot, min(nhot, len(hot)))
+    pick += rng.sample([d for d in uniq if d not in pick], nall - len(pick))
     return [(d, bykey[json.dumps(d, sort_keys=True)]) for d in pick]
 
 
